@@ -283,11 +283,15 @@ namespace igris
             size_t _pos = pos - m_data;
 
             reserve(m_size + 1);
-            m_size++;
 
             iterator first = m_data + _pos;
-            iterator last = std::prev((iterator)end());
-            std::move_backward(first, last, end());
+            iterator last = (iterator)end();
+            if (first != last)
+            {
+                igris::move_constructor(last, std::move(*(last - 1)));
+                std::move_backward(first, last - 1, last);
+            }
+            m_size++;
             new (first) T(std::forward<Args>(args)...);
 
             return first;
@@ -299,12 +303,20 @@ namespace igris
             size_t _pos = pos - m_data;
 
             reserve(m_size + 1);
-            m_size++;
 
             iterator first = m_data + _pos;
-            iterator last = std::prev((iterator)end());
-            std::move_backward(first, last, (iterator)end());
-            *first = value;
+            iterator last = (iterator)end();
+            if (first == last)
+            {
+                igris::constructor(last, value);
+            }
+            else
+            {
+                igris::move_constructor(last, std::move(*(last - 1)));
+                std::move_backward(first, last - 1, last);
+                *first = value;
+            }
+            m_size++;
 
             return first;
         }
